@@ -129,6 +129,7 @@ EpsBgpTwo9(nf)   == BgpLayouts(UpTo2, A1, Cond9, nf)
 EpsBgpTwo5(nf)   == BgpLayouts(UpTo2, A1, Cond5, nf)
 EpsBgpTwoM(nf)   == BgpLayouts(UpTo2, A2, Cond2, nf)
 EpsBgpThree(nf)  == BgpLayouts(Exactly3, A1, Cond5, nf)
+EpsBgpThree9(nf) == BgpLayouts(Exactly3, A1, Cond9, nf)
 EpsBgpThreeM(nf) == BgpLayouts(Exactly3, A2, Cond2, nf)
 EpsBgpFour(nf)   == BgpLayouts(Exactly4, A1, Cond4, nf)
 
